@@ -298,6 +298,79 @@ def confirm_display(prop, v):
     return ('reproduced' if any(o != vals[0] for o in vals[1:]) else 'not_reproduced'), detail
 
 
+def run_par_iter_job(progs, job):
+    """C17, last clause: par_iter() visits exactly the nodes of iter().  Arena::par_iter (all-features MIR) and Arena::iter are
+    executed on the same symbolic arena; the slice handed to rayon must be the slice iter() walks: same vector, from element 0,
+    for its whole length.  That rayon's slice iterator visits every element of the slice it is given exactly once is rayon's
+    contract and is assumed, not encoded."""
+    from multistep import call_all
+    t0 = time.time()
+    res = new_result(job)
+    N = job['N']
+    prog = progs[tuple(job['other'])]
+    eng = Engine(prog, max_steps=20000)
+    A = SymArena(N)
+    for c_ in A.inv(): eng.solver.add(c_)
+    st = State(); acell = st.new_cell(A.value())
+    def bi_par(eng_, st_, args, d, r, callee=''):
+        rf = args[0]
+        if isinstance(rf, E_.SubRef): return ('value', Agg('ParIter', (Ref(rf.cell, rf.path), rf.off, E_.binop_static(eng_, 'Add', rf.off, rf.len))))
+        v = E_.vec_of(eng_, st_, rf)
+        return ('value', Agg('ParIter', (rf, S(0, 'usize'), v.len)))
+    import engine as E_
+    E_.binop_static = lambda e, op, a, b: e.binop(op, a, b)
+    for key in (('IntoParallelRefIterator', 'par_iter'), ('Vec', 'par_iter'), ('[Node<T>]', 'par_iter'), ('IntoParallelIterator', 'into_par_iter')):
+        E_.BUILTIN_METHODS[key] = bi_par
+    fpar = [f for (t, f) in prog.methods.get(('Arena', 'par_iter'), [])]
+    fit = [f for (t, f) in prog.methods.get(('Arena', 'iter'), [])]
+    if not fpar or not fit: raise Unsupported('Arena::par_iter / Arena::iter not in the all-features MIR')
+    outs_p = call_all(eng, st.copy(), fpar[0], [Ref(acell, ())])
+    outs_i = call_all(eng, st.copy(), fit[0], [Ref(acell, ())])
+    def viol(m):
+        return {'kind': 'custom', 'module': 'c17', 'confirm': 'confirm_par_iter', 'checks': ['C17.par_iter_is_handed_the_slice_of_iter'], 'op': 'par_iter', 'N': N,
+                'cfg': job['other'][0], 'pre': A.model_dict(m), 'role': 'par_iter', 'args': {}}
+    for op_ in outs_p:
+        for oi in outs_i:
+            res['paths'] += 1
+            pc = list(op_.state.pc) + list(oi.state.pc)
+            if eng.check(pc) != z3.sat: continue
+            res['obligations'] += 1; res['assert_queries'] += 1
+            good = F_
+            if op_.kind == 'return' and oi.kind == 'return' and isinstance(op_.value, Agg) and op_.value.ty == 'ParIter' and isinstance(oi.value, Agg) and oi.value.ty == 'SliceIter':
+                pr, plo, phi = op_.value.f; ir, ilo, ihi = oi.value.f
+                same_vec = (pr.cell == ir.cell and tuple(pr.path) == tuple(ir.path) and pr.cell == acell)
+                if same_vec:
+                    good = z3.And(zb(plo) == zb(ilo), zb(phi) == zb(ihi), zb(plo) == 0, zb(phi) == N)
+                elif all(b_.conc() for b_ in (plo, phi, ilo, ihi)):
+                    # a sub-slice taken by range indexing is modelled as a copy: the same node values, in order
+                    pv = E_.vec_of(eng, op_.state, pr).el[plo.v:phi.v]; iv = E_.vec_of(eng, oi.state, ir).el[ilo.v:ihi.v]
+                    good = z3.BoolVal(len(pv) == len(iv) == N and all(a_ is b_ for a_, b_ in zip(pv, iv)))
+            r = eng.check(pc + [z3.Not(good)])
+            if r == z3.unsat: res['discharged'] += 1; res['nontrivial'] += 1
+            elif r == z3.unknown: res['unknown'] = 'query unknown'
+            else: res['violations'].append(viol(eng.solver.model()))
+    res['samples'].append({'harness': 'Arena::par_iter vs Arena::iter', 'N': N, 'assumed': "rayon's slice iterator visits each element of its slice exactly once"})
+    res['feas_queries'] = eng.nq; res['wall'] = time.time() - t0
+    return res
+
+
+def confirm_par_iter(prop, v):
+    import replay, os, subprocess
+    env = dict(os.environ); env['CARGO_NET_OFFLINE'] = 'true'
+    td = os.path.join(replay.RDIR, 'target-all'); env['CARGO_TARGET_DIR'] = td
+    p = subprocess.run(['cargo', 'build', '--offline', '--quiet', '--no-default-features', '--features', 'ix-all'], cwd=replay.RDIR, env=env, stdout=subprocess.PIPE, stderr=subprocess.PIPE, text=True)
+    if p.returncode != 0: return 'not_reproduced', {'build_failed': p.stderr[-400:]}
+    replay._built['feat-all'] = os.path.join(td, 'debug', 'replayer')
+    detail = {}; status = 'not_reproduced'
+    for n in sorted(set([len(v['pre']['slots']), 1, 2, 5, 70])):
+        lines = ['new n%d %d' % (k, k % 250) for k in range(n)] + (['remove n0'] if n > 1 else []) + ['par_iter']
+        res = replay.run_script(lines, 'feat-all')
+        r = res.get(len(lines) - 1, ('MISSING', ''))
+        detail['n=%d' % n] = r[1][:80]
+        if r[0] != 'OK' or not r[1].strip().endswith('same=true'): status = 'reproduced'
+    return status, detail
+
+
 def run_identity_job(progs_texts, job):
     """textual part: every function of the base configuration has an identical body (modulo module-path printing) in the other"""
     t0 = time.time()
